@@ -172,3 +172,12 @@ package fluentdforward
 //@   requires[verified-before-constructed] serok(config, schema) && rwvaluesok(config)
 //@   requires (forall i int :: 0 <= i && i < len(schema.fieldNames) ==> len(schema.fieldNames[i]) < 4294967296) && (forall i int :: 0 <= i && i < len(config.EnvironmentFields) ==> len(config.EnvironmentFields[i]) < 4294967296)
 //@   modifies nothing
+
+// ==== which files of a queue directory are chunks (C04, C03): WriteFileAt writes under "<name>.tmp" and renames when the
+// file is complete, so a name ending in ".tmp" - what a crash in the middle of a write leaves behind - must never be
+// recognised as a chunk
+//@ func (cfg *Config) MatchChunkID(chunkID string) bool
+//@   property C04 C03
+//@   modifies nothing
+//@   ensures[own-suffix-only] result ==> len(chunkID) >= 3 && chunkID[len(chunkID)-3] == 46 && chunkID[len(chunkID)-2] == 102 && chunkID[len(chunkID)-1] == 102
+//@   ensures[never-a-temporary-name] len(chunkID) >= 4 && chunkID[len(chunkID)-4] == 46 && chunkID[len(chunkID)-3] == 116 && chunkID[len(chunkID)-2] == 109 && chunkID[len(chunkID)-1] == 112 ==> !result
